@@ -253,10 +253,17 @@ def sig_of(msg):
 # known findings
 
 def load_known():
+    """known_findings.json (committed, never written at run time) + per-property fragments known/*.json"""
+    res = []
     p = os.path.join(VERIF, "known_findings.json")
-    if not os.path.exists(p):
-        return []
-    return json.load(open(p)).get("findings", [])
+    if os.path.exists(p):
+        res += json.load(open(p)).get("findings", [])
+    d = os.path.join(VERIF, "known")
+    if os.path.isdir(d):
+        for f in sorted(os.listdir(d)):
+            if f.endswith(".json"):
+                res += json.load(open(os.path.join(d, f)))
+    return res
 
 
 def match_known(pid, msg, known):
